@@ -51,7 +51,6 @@ KNOWN = [
           [ins('c0', {'id': 'a', 'p': [{'__t': '__dt', '__v': '2020-01-02T03:04:05.000006Z'}]}), ['reload'], qry('c0')]),
     {'kind': 'codec', 'probe': 'C06-ext-tag-clash', 'values': [enc({'__t': '__d', '__v': '2020-1-2'})]},
     {'kind': 'codec', 'probe': 'C06-date-before-1000', 'values': [enc([datetime.datetime(33, 3, 3, 3, 3, 3)])]},
-    {'kind': 'ids', 'probe': 'C06-mongo-id-newline', 'ids': ['0123456789abcdef01234567\n']},
 ]
 
 def known_slice(shards):
@@ -96,6 +95,10 @@ REGRESSION = [
     {'ops': [ins('c0', {'id': UP, 'n': 1}), qry('c0', filt={'id': UP}), ins('c0', {'id': UP.lower(), 'n': 2}),
              qry('c0', sort=[['n', False]]), rem('c0', {'id': UP.lower()}), qry('c0'), upd('c0', {'n': 5}, {'id': {'in': [UP.lower(), UP]}}),
              rep('c0', UP.lower(), {'n': 7}), qry('c0', fields=['id'])]},
+    # repaired: 24 lower-case hex digits and a newline is an ordinary string id (regex `$` used to match before the newline)
+    {'kind': 'ids', 'ids': ['0123456789abcdef01234567\n']},
+    {'ops': [ins('c0', {'id': '0123456789abcdef01234567\n', 'n': 1}), ins('c0', {'id': '0123456789abcdef01234567', 'n': 2}),
+             qry('c0', sort=[['n', False]]), rem('c0', {'id': '0123456789abcdef01234567\n'}), qry('c0')], 'only': ['mongo', 'redis', 'jmem']},
     {'kind': 'ids', 'ids': [UP, UP.lower(), 'DeadBeef00112233aabbccDD', UP[:23], UP + '0', 'abcdefabcdef', '', '0' * 24, 'G' * 24]},
     # ids around the id counters and in key syntax
     {'ops': [ins('c0', {'id': '01', 'n': 1}), ins('c0', {'n': 2}, 1), ins('c0', {'id': '1.0', 'n': 3}), ins('c0', {'id': ' 1', 'n': 4}),
